@@ -431,3 +431,73 @@ ASSUMPTIONS = [
     "(uninterpreted function of the row), predict = argmax",
     "z3 nonlinear real arithmetic decides normalisation (rows sum to one) and expected-cost comparisons",
 ]
+
+
+# ---------------------------------------------------------------- SklearnClassifier around an estimator that cannot be fitted
+def sc_unfittable(d, n, nq, K, cls_order, fitfn):
+    """the wrapped estimator raises in fit: predict_proba falls back to the label frequencies (uniform without labels),
+    one column per declared class in classes_ order; predict returns members of classes_"""
+    from sklearn.base import BaseEstimator, ClassifierMixin
+    from skactiveml.classifier import SklearnClassifier
+
+    class Unfittable(ClassifierMixin, BaseEstimator):
+        def fit(self, X, y, sample_weight=None):
+            raise ValueError("this estimator cannot be fitted")
+
+        def partial_fit(self, X, y, classes=None, sample_weight=None):
+            raise ValueError("this estimator cannot be fitted")
+
+        def predict_proba(self, X):
+            raise NotImplementedError
+
+        def predict(self, X):
+            raise NotImplementedError
+    classes = CLASS_SETS[cls_order][:K]
+    idx = [d.choose(f"label{i}", [-1] + list(range(K))) for i in range(n)]
+    y = d.arr([NAN if k < 0 else classes[k] for k in idx])
+    X = d.arr([[float(i)] for i in range(n)], shape=(n, 1))
+    seed = d.integer("seed", 0, 2 ** 31 - 2)
+    clf = SklearnClassifier(Unfittable(), classes=classes, random_state=seed)
+    try:
+        getattr(clf, fitfn)(X, y)
+    except (core.Unencodable, core.PathAbort):
+        raise
+    except Exception as e:
+        d.prove(False, "unfittable:fit_does_not_fail", info=dict(error=repr(e)[:160]))
+        return
+    Xq = d.arr([[d.fl(f"q{i}")] for i in range(nq)], shape=(nq, 1))
+    try:
+        P = clf.predict_proba(Xq)
+        pred = clf.predict(Xq)
+    except (core.Unencodable, core.PathAbort):
+        raise
+    except Exception as e:
+        d.prove(False, "unfittable:predict_falls_back", info=dict(error=repr(e)[:160]))
+        return
+    cs = sorted(classes)
+    d.prove(tuple(np.shape(P)) == (nq, K), "unfittable:proba_shape", info=dict(shape=list(np.shape(P))))
+    if tuple(np.shape(P)) != (nq, K):
+        return
+    counts = [sum(1 for k in idx if k >= 0 and classes[k] == cv) for cv in cs]
+    tot = sum(counts)
+    flat = d.flat(P)
+    for i in range(nq):
+        for k in range(K):
+            want = counts[k] / tot if tot else 1.0 / K
+            d.prove(d.eq(flat[i * K + k], want, 1e-12), "unfittable:proba_is_label_frequency", info=dict(cls=cs[k], counts=counts))
+    for v in d.flat(pred):
+        ok = False
+        for cv in cs:
+            ok = core.b_or(ok, d.eq(v, cv)) if d.sym else (ok or bool(v == cv))
+        d.prove(ok, "unfittable:predict_returns_member_of_classes")
+    d.witness(0 < tot and counts[-1] == 0, "last_class_unobserved")
+    d.witness(tot == 0, "no_labels")
+
+
+from harness.common import dual_harness  # noqa: E402
+
+HARNESSES.append(dual_harness(
+    "sklearn_wrapper_unfittable", sc_unfittable,
+    lambda tier: [dict(n=n, nq=2, K=K, cls_order=o, fitfn=f) for n in ((2,) if tier == "quick" else (2, 3)) for K in (2, 3)
+                  for o in ("sorted", "cyclic") for f in ("fit", "partial_fit")],
+    UNITS[6:9], required_witnesses=("last_class_unobserved", "no_labels")))
